@@ -84,7 +84,18 @@ SPEC = dict(
          "observations; DIFF = the extracted model, replayed with the choice list read off the trace (z, new start, "
          "zoops accept/reject), does not reproduce a state, an iteration, the convergence or a panic. "
          "Non-trivial: the run moved at least one start and, in zoops mode, recruited at least one sequence "
-         "(computed by the generator, field nt=moved:recruited:calls); distinct by configuration and data set.",
+         "(computed by the generator, field nt=moved:recruited:calls); distinct by configuration and data set. "
+         "Round 3: generated data sets also contain RUNS of the wildcard (one sequence in four: 1..w+2 consecutive N / X), one "
+         "small case in fourteen has one sequence of 200..700 symbols (7..22 striped rows), wrap rows = width + {0,0,1,5,12}. The first "
+         "fl calls of next() (quick 20, thorough 40 / all) are replayed through the FLOAT model: PSSM cells, scores, 2f64.powf weights, "
+         "WeightedIndex::new / Uniform::new / sample from the recorded generator word, Zoops information-content test; the model's own "
+         "choice (new start, accept/reject) must equal the implementation's. On each of these calls the driver also evaluates "
+         "pssm_shape (the implementation's PSSM has -inf exactly at the cells named by the integer tables), scale_ok, word_ok and "
+         "'the implementation's new start has a positive weight'. Translator: translate/sampler_skel.py re-reads sampler.rs on every run "
+         "into coq/sampler/GenSampler.v (statement lists of include_sequence / exclude_sequence / the two construction loops of _new, "
+         "wrap guard, Uniform::new bounds, pseudocount literal and its binary32 bits, weight expression, select_holdout, the call list of "
+         "next()); SamplerSkel.v proves that INTERPRETING the generated data equals the hand model for all states (17 gen_* theorems "
+         "+ 3 helper lemmas, ending in gen_next_is_model). Property files: C16.v (19), C16F.v (13), SamplerSkel.v (20): 52 obligations.",
     trusted_base=[
         "Coq 8.16.1 kernel (coqc); vm_compute only in the non-vacuity Examples; no native_compute; all "
         "theorems of C16.v are closed under the global context (no axioms)",
@@ -99,8 +110,16 @@ SPEC = dict(
         "select_holdout, include_sequence, exclude_sequence, prepare_pssm/background(), update_holdout, "
         "Iterator::next statement by statement with every panic site explicit; tied to the code only by the "
         "correspondence run); rand (Uniform, WeightedIndex, index::sample, SliceRandom::choose) is replaced by the "
-        "choice list; the f32 part (to_freq, into_scoring, score_into, information_content, 2^x weights) only "
-        "influences the choices and is not modelled",
+        "choice list; the f32/f64 part (to_freq(0.1), into_scoring, scalar score definition, 2f64.powf weights, rand 0.8.8 "
+        "WeightedIndex::new / UniformFloat::new / sample_single-free `sample`, information_content) is modelled in SamplerF32.v on Flocq "
+        "binary32/binary64 and tied by the float replay of the first fl calls; libm (log2f, 2f32.powf, 2f64.powf) enters as oracle "
+        "tables printed by the harness, re-validated (one output per input, close to OCaml's log2/pow); select_holdout's integer "
+        "draw and the initial draws (Uniform<usize>, index::sample) stay inputs read off the trace",
+        "translator translate/sampler_skel.py (token patterns + brace matching + a linear-expression normaliser over sampler.rs; "
+        "anything outside the recognised shapes is reported as 'cannot parse' = broken obligation)",
+        "C16F.v / SamplerF64.v / SamplerScale.v / SamplerWord.v use Flocq's real-number semantics (B2R, Bplus_correct, Bmult_correct, "
+        "Bminus_correct, Bcompare_correct): the allow-listed classical axioms of the Coq Reals appear under Print Assumptions for "
+        "those theorems; C16.v stays axiom-free",
     ],
     assumptions=[
         "symbols of an encoded sequence are < K (Rust type invariant of Symbol; re-checked on every data set: sym=)",
@@ -116,5 +135,13 @@ SPEC = dict(
         "(single sequence, zoops with 0 or 1 seed, all active sequences exactly as long as the width), an empty "
         "data set, an empty seed list during inertia, WeightedIndex overflow, step counter overflow — model "
         "Panic 5..9; theorem sampler_no_panic shows these are the only ones",
+        "weights_support_partial: pow(2,-inf) and pow(2,NaN) are not > 0 (IEEE 754 / C99 F.10.4.4), stated as premises on the oracle; "
+        "the PSSM has the shape pssm_shape (executable, checked on every replayed call, not derived from to_freq / into_scoring; only "
+        "the zero-background half is a theorem: zero_background_cell_is_neg_inf); the converse direction (a live position has a "
+        "positive weight) is NOT proved (needs magnitude bounds)",
+        "allowed_g admits OutOfFuel: the scale-adjustment loop of Uniform::new is modelled with fuel 8 (never more than 1 iteration observed)",
+        "generator words are u64 (0 <= word < 2^64); for these word_ok and scale_ok are theorems (word_fraction_ok, uniform_scale_ok)",
+        "SamplerBuilder::temperature is ignored by _new (hard-coded 1.0): pinned by the translator (gen_weights_are_model); a future "
+        "change of the builder shows up as a broken obligation of SamplerSkel.v",
     ],
 )
